@@ -369,7 +369,7 @@ fn truncate_value(v: &Value, max: usize) -> Value {
 
 static CASE_START_CPU_MS: std::sync::atomic::AtomicU64 = std::sync::atomic::AtomicU64::new(u64::MAX);
 
-fn process_cpu_ms() -> u64 {
+pub fn process_cpu_ms() -> u64 {
     let mut ts = libc::timespec { tv_sec: 0, tv_nsec: 0 };
     unsafe {
         libc::clock_gettime(libc::CLOCK_PROCESS_CPUTIME_ID, &mut ts);
